@@ -45,7 +45,7 @@ def fc_sem(e, rc, fc):
 
 
 def run(ctx: Ctx) -> None:
-    ctx.rule = ("valid well-formed trees (exhaustive up to 3/4 leaves over {1,2,501,901}, random up to 7/9 leaves with <=3 format keys); all 3^m requirement "
+    ctx.rule = ("valid well-formed trees (exhaustive up to 3/4 leaves over {1,2,900,901}, random up to 7/9 leaves with <=3 format keys); all 3^m requirement "
                 "assignments (sampled beyond 81/243) x ALL 2^n truth assignments of the format keys; distinct = (tree, rc assignment); non-trivial = has a format key")
     ctx.coverage["generated_changed"] = extract.regenerate(["Cfv", "CharClasses"])
     ok = ctx.lean_build(MODULES)
